@@ -24,6 +24,9 @@ type SubP struct {
 type MsgP struct {
 	Tag    string
 	Topics []string
+	// Value != "": this publication reuses the one *Message of that name (a prebuilt event published again and
+	// again); Tag is then Value@n for its n-th publication.
+	Value string
 }
 
 type Params struct {
@@ -43,6 +46,7 @@ type world struct {
 	Shut error
 	// concurrent Shutdown
 	Conc        bool
+	Repeats     map[string]bool
 	DoneBefore  map[string]bool
 	ConcShutErr error
 }
@@ -88,16 +92,28 @@ func body(p Params) func() {
 				}))
 			}
 		}
+		values := map[string]*sse.Message{}
 		for pi, prog := range p.Pubs {
 			var recs []*jo.Msg
 			for k, m := range prog {
+				if m.Value != "" && values[m.Value] == nil {
+					values[m.Value] = jh.Msg(m.Value, "")
+					if w.Repeats == nil {
+						w.Repeats = map[string]bool{}
+					}
+					w.Repeats[m.Value] = true
+				}
 				r := &jo.Msg{Tag: m.Tag, Topics: m.Topics, Pub: pi, Seq: k}
 				recs = append(recs, r)
 				w.Msgs = append(w.Msgs, r)
 			}
 			others = append(others, vrt.GoNamed(fmt.Sprintf("P%d", pi+1), func() {
 				for k, m := range prog {
-					recs[k].Err = j.Publish(jh.Msg(m.Tag, ""), m.Topics)
+					msg := values[m.Value]
+					if msg == nil {
+						msg = jh.Msg(m.Tag, "")
+					}
+					recs[k].Err = j.Publish(msg, m.Topics)
 					recs[k].Returned = true
 					done[pi].Poke(int64(k + 1)) // same step as Publish's last synchronisation operation
 				}
@@ -125,7 +141,7 @@ func body(p Params) func() {
 
 func spec(w *world) *jo.Spec {
 	return &jo.Spec{JL: w.JL, HasReplayer: true, Subs: w.Subs, Msgs: w.Msgs, Ignore: map[string]bool{"init": true},
-		ConcurrentShutdown: w.Conc, DoneBeforeShutdown: w.DoneBefore}
+		ConcurrentShutdown: w.Conc, DoneBeforeShutdown: w.DoneBefore, Repeats: w.Repeats}
 }
 
 func check(r *vrt.Result) string {
@@ -201,7 +217,7 @@ func Scenarios(tier string) []run.Scenario {
 				}
 				add(Params{Name: fmt.Sprintf("base-cancel%d-slow%v-preinit%v", cancelWho, slow, pre), PreInit: pre, Preempt: -1,
 					Subs: []SubP{{Topics: tA, Cancel: cancelWho == 1, Slow: slow}, {Topics: tAB, Cancel: cancelWho == 2, Slow: slow}},
-					Pubs: [][]MsgP{{{"m1", tA}, {"m2", tAB}}, {{"m3", tB}}}})
+					Pubs: [][]MsgP{{{Tag: "m1", Topics: tA}, {Tag: "m2", Topics: tAB}}, {{Tag: "m3", Topics: tB}}}})
 			}
 		}
 	}
@@ -209,7 +225,7 @@ func Scenarios(tier string) []run.Scenario {
 	for cancelWho := 0; cancelWho <= 2; cancelWho++ {
 		add(Params{Name: fmt.Sprintf("overlap-cancel%d", cancelWho), PreInit: true, Preempt: -1,
 			Subs: []SubP{{Topics: tAB, Cancel: cancelWho == 1}, {Topics: []string{"b", "a", sse.DefaultTopic}, Cancel: cancelWho == 2}},
-			Pubs: [][]MsgP{{{"m1", tAB}, {"m2", tC}}, {{"m3", []string{sse.DefaultTopic, "b"}}}}})
+			Pubs: [][]MsgP{{{Tag: "m1", Topics: tAB}, {Tag: "m2", Topics: tC}}, {{Tag: "m3", Topics: []string{sse.DefaultTopic, "b"}}}}})
 	}
 	// a Shutdown in the middle of it all: whatever was published before it was requested still reaches everybody
 	for _, slow := range bools {
@@ -218,7 +234,7 @@ func Scenarios(tier string) []run.Scenario {
 		}
 		add(Params{Name: fmt.Sprintf("shutdown-concurrent-slow%v", slow), PreInit: true, Preempt: -1, Shutdown: true,
 			Subs: []SubP{{Topics: tA, Slow: slow}, {Topics: tAB, Slow: slow}},
-			Pubs: [][]MsgP{{{"m1", tA}, {"m2", tAB}}, {{"m3", tB}}}})
+			Pubs: [][]MsgP{{{Tag: "m1", Topics: tA}, {Tag: "m2", Topics: tAB}}, {{Tag: "m3", Topics: tB}}}})
 	}
 	// long topic lists (a dozen topics per message): matching must not depend on list length or on earlier messages
 	many := func(first string, prefix string) []string {
@@ -230,14 +246,28 @@ func Scenarios(tier string) []run.Scenario {
 	}
 	add(Params{Name: "many-topics", PreInit: true, Preempt: -1,
 		Subs: []SubP{{Topics: tA}, {Topics: []string{"b", "u3"}}},
-		Pubs: [][]MsgP{{{"m1", many("a", "t")}, {"m2", many("zz", "u")}, {"m3", many("b", "v")}, {"m4", many("yy", "t")}}}})
+		Pubs: [][]MsgP{{{Tag: "m1", Topics: many("a", "t")}, {Tag: "m2", Topics: many("zz", "u")}, {Tag: "m3", Topics: many("b", "v")}, {Tag: "m4", Topics: many("yy", "t")}}}})
+	// one prebuilt message value published again and again (to several topics, to one, with other messages between)
+	for v := 0; v < 3; v++ {
+		progs := [][]MsgP{
+			{{Tag: "ping@1", Topics: tAB, Value: "ping"}, {Tag: "m1", Topics: tA}, {Tag: "ping@2", Topics: tAB, Value: "ping"}},
+			{{Tag: "ping@1", Topics: tA, Value: "ping"}, {Tag: "ping@2", Topics: tAB, Value: "ping"}, {Tag: "ping@3", Topics: []string{"b", "c"}, Value: "ping"}},
+			{{Tag: "ping@1", Topics: tAB, Value: "ping"}, {Tag: "ping@2", Topics: tAB, Value: "ping"}},
+		}
+		pubs := [][]MsgP{progs[v]}
+		if v == 2 {
+			pubs = append(pubs, []MsgP{{Tag: "m2", Topics: []string{"b", "c"}}})
+		}
+		add(Params{Name: fmt.Sprintf("same-value-republished-%d", v+1), PreInit: true, Preempt: -1,
+			Subs: [][]SubP{{{Topics: tA}, {Topics: tAB}}, {{Topics: tAB}, {Topics: []string{"b", "c"}}}, {{Topics: tAB}, {Topics: []string{"b", "c"}}}}[v], Pubs: pubs})
+	}
 	// a neighbour fails: the others still get every message exactly once
 	for f := 0; f < 3; f++ {
 		for at := 1; at <= 2; at++ {
 			subs := []SubP{{Topics: tA}, {Topics: tAB}, {Topics: tA}}
 			subs[f].FailAt = at
 			add(Params{Name: fmt.Sprintf("neighbour-fails-sub%d-call%d", f+1, at), PreInit: true, Preempt: -1, Subs: subs,
-				Pubs: [][]MsgP{{{"m1", tA}, {"m2", tAB}}}})
+				Pubs: [][]MsgP{{{Tag: "m1", Topics: tA}, {Tag: "m2", Topics: tAB}}}})
 		}
 	}
 	if tier == "thorough" {
@@ -245,19 +275,19 @@ func Scenarios(tier string) []run.Scenario {
 			for cancelWho := 0; cancelWho <= 3; cancelWho++ {
 				add(Params{Name: fmt.Sprintf("three-cancel%d-slow%v", cancelWho, slow), PreInit: true, Preempt: -1,
 					Subs: []SubP{{Topics: tA, Cancel: cancelWho == 1, Slow: slow}, {Topics: tAB, Cancel: cancelWho == 2, Slow: slow}, {Topics: tD, Cancel: cancelWho == 3, Slow: slow}},
-					Pubs: [][]MsgP{{{"m1", tA}, {"m2", tAB}}, {{"m3", tB}, {"m4", tD}}}})
+					Pubs: [][]MsgP{{{Tag: "m1", Topics: tA}, {Tag: "m2", Topics: tAB}}, {{Tag: "m3", Topics: tB}, {Tag: "m4", Topics: tD}}}})
 			}
 		}
 		add(Params{Name: "three-publishers", PreInit: true, Preempt: -1,
 			Subs: []SubP{{Topics: tA, Cancel: true}, {Topics: tAB}},
-			Pubs: [][]MsgP{{{"m1", tA}, {"m2", tAB}}, {{"m3", tB}}, {{"m4", tA}}}})
+			Pubs: [][]MsgP{{{Tag: "m1", Topics: tA}, {Tag: "m2", Topics: tAB}}, {{Tag: "m3", Topics: tB}}, {{Tag: "m4", Topics: tA}}}})
 	}
 	return out
 }
 
 var Check = &run.Check{
 	ID: "C03", Level: "model_checking",
-	Rule: "Scenarios: 2-3 subscribers on disjoint/overlapping/default topics (one of them cancelled by a thread that first notes which Publish calls had returned), 2-3 publisher threads with 3-4 messages, fast and slow (yielding) clients, Joe pre-initialised or initialised by the racing calls, final Shutdown (or a Shutdown racing everything, after noting which Publish calls had returned); all interleavings (unbounded, state-key pruning), all select tie-breaks, all map orders. The recording replayer's call order is the serialisation witness.",
+	Rule: "Scenarios: 2-3 subscribers on disjoint/overlapping/default topics (one of them cancelled by a thread that first notes which Publish calls had returned), 2-3 publisher threads with 3-4 messages, fast and slow (yielding) clients, Joe pre-initialised or initialised by the racing calls, one prebuilt *Message value published repeatedly (its publications told apart by the replayer's Put order), final Shutdown (or a Shutdown racing everything, after noting which Publish calls had returned); all interleavings (unbounded, state-key pruning), all select tie-breaks, all map orders. The recording replayer's call order is the serialisation witness.",
 	Assumptions: []string{
 		"schedules are explored at the granularity of synchronisation operations under sequential consistency (DESIGN.md 2.1)",
 		"'published before cancellation was requested' is decided inside each execution through a shared flag set after Publish returned and read by the cancelling thread (an under-approximation of what is owed, never an over-approximation)",
